@@ -283,7 +283,23 @@ def flex_validator(F, R):
     if ok:
         e = ab(canon(body.expr_of_call(vc[0][1], 0, vc[0][0])))
         ok = e.startswith("FlatValidate::validate((Try((<fc::flex::DataIter<'a, T, L, D> as core::iter::traits::iterator::Iterator>::next(") and e.endswith("as Some).0) as Continue).0)")
-    R.ob("V1.flex-items", fn, "items", ok, "%s: every item the chain walk yields is fully validated as T (alignment, size and content)" % fn, where=b["span"])
+    if ok:
+        # ... every one of them: nothing validates an item without the gate (validate_unchecked::<T>), and from the point where the item's
+        # bytes are known neither the next step of the walk nor a return is reachable around the checked call
+        unchecked = [c for c in find_calls(body, "FlatValidate::validate_unchecked") if c[1]["call"]["args"] == ["T"]]
+        nxt = [bb_ for bb_, t_ in body.calls() if call_matches(body.expr_of_call(t_, 0, bb_), "Iterator::next", "next")]
+        starts = []
+        for sbb, st in body.switches():
+            c = body.expr_of_operand(st["switch"])
+            if c[0] == "discr" and ab(canon(c)).startswith("discr(Try((<fc::flex::DataIter<'a, T, L, D> as core::iter::traits::iterator::Iterator>::next("):
+                starts += [tb for v, tb in st["targets"] if int(v) == 0]
+        around = set()
+        for s0 in starts:
+            around |= body.reachable_from(s0, avoid=[vc[0][0]])
+        rets_around = [bb_ for bb_, r_ in ret_stores(body) if bb_ in around and r_.startswith("Ok{")]
+        ok = not unchecked and len(nxt) == 1 and bool(starts) and nxt[0] not in around and not rets_around
+    R.ob("V1.flex-items", fn, "items", ok, "%s: every item the chain walk yields is fully validated as T (alignment, size and content): no item is "
+         "passed to the unchecked validator and no path continues the walk or returns Ok around the checked call" % fn, where=b["span"])
     # the error mapper of an item: captures (in some order) the slot position read BEFORE the step and `sealed` = the walker still has data
     # AFTER the step; it shifts by pos + OFFSET_SIZE and turns the shortfall of a sealed item into a content error
     cls = closures_of(F, b)
@@ -927,6 +943,12 @@ def filling_emplacers(F, R):
                  "%s: `capacity < needed` (capacity of the view of the same bytes) is refused with InsufficientSize before the target is touched; on that "
                  "path a target is written only when it is not a valid value (then it is made empty)%s" % (fn, why_r), where=b["span"])
             if R.pid in ("C18", "C14"):
+                # every error of the emplacer's own making passes the repair decision (refusal edge of the room gate) or comes after the
+                # reset: an earlier shortcut exit would leave an invalid tail of a composite as it is
+                own_errs = [bb_ for bb_, r_ in ret_stores(body) if r_.startswith("Err{")]
+                early = [bb_ for bb_ in own_errs if not (okr and (bb_ in refusal or (em and body.dominates(em[0][0], bb_))))]
+                if early:
+                    cond_ok = False
                 R.ob("R2.refusal-leaves-valid", fn, "invalid-target-reset", bool(okr) and cond_ok and len(repair_em) == 1,
                      "%s: when the content is refused and the bytes are no valid container (tail of a composite being re-initialised: new tag over old "
                      "bytes) they are made an empty one, so that the composite stays valid (a stale length over a small capacity would let the next safe "
